@@ -45,49 +45,82 @@ def run(ctx):
     F = ctx.F
     wp = ctx.fn(R.PERSIST, "R-C09.1")
     if wp:
-        # ---- R-C09.1 mode table
-        sw = None
+        # ---- R-C09.1 mode table (in Writer::persist, or in a local helper the mode parameter is handed to unchanged)
+        def mode_switch(fn, pidx):
+            og_ = ctx.og(fn)
+            for b, blk in enumerate(fn.blocks):
+                t = blk["t"]
+                if t["k"] == "switch" and not blk["cleanup"]:
+                    term = og_.of_operand(t["d"])
+                    if term.k == "discr" and term.a.k == "param" and term.a.a[0] == pidx:
+                        return b
+            return None
+        mf, mp, via = wp, 2, None
+        sw = mode_switch(mf, mp)
+        hops = 0
+        while sw is None and hops < 2:
+            nxt = None
+            og_ = ctx.og(mf)
+            for b, t in mf.calls():
+                callee = F.fns.get(A.cname(t))
+                if callee is None or callee.kind == "closure":
+                    continue
+                for i, a in enumerate(t["args"]):
+                    term = og_.of_operand(a)
+                    if term.k == "param" and term.a[0] == mp and "PersistMode" in callee.local_ty(i + 1):
+                        nxt = (callee, i + 1, b)
+            if nxt is None:
+                break
+            mf, mp = nxt[0], nxt[1]
+            via = via if via is not None else nxt[2]
+            sw = mode_switch(mf, mp)
+            hops += 1
         og = ctx.og(wp)
-        for b, blk in enumerate(wp.blocks):
-            t = blk["t"]
-            if t["k"] == "switch" and not blk["cleanup"]:
-                term = og.of_operand(t["d"])
-                if term.k == "discr" and term.a.k == "param" and term.a.a[0] == 2:
-                    sw = b
         if sw is None:
-            ctx.ob("R-C09.1", wp, "mode-switch-present", False, "Writer::persist does not switch on its PersistMode parameter")
+            ctx.ob("R-C09.1", wp, "mode-switch-present", False, "Writer::persist (and the helpers it passes its mode to) never switch on the PersistMode parameter")
         else:
-            _, labels = A.switch_info(wp, sw)
+            _, labels = A.switch_info(mf, sw)
             arm_of = {}
             for tg, names in labels.items():
                 for n in names:
                     arm_of[n] = tg
-            sa = R.call_blocks(wp, (SYNC_ALL,))
-            sd = R.call_blocks(wp, (SYNC_DATA,))
+            sa = R.call_blocks(mf, (SYNC_ALL,))
+            sd = R.call_blocks(mf, (SYNC_DATA,))
             for mode, accept in (("SyncAll", sa), ("SyncData", sd + sa)):
                 tg = arm_of.get(mode)
                 if tg is None:
                     ctx.ob("R-C09.1", wp, "arm-%s" % mode, False, "no switch arm for PersistMode::%s" % mode)
                     continue
-                r = A.reach(wp, [tg], avoid=accept)
-                rets = [x for x in wp.return_blocks() if x in r]
+                r = A.reach(mf, [tg], avoid=accept)
+                rets = [x for x in mf.return_blocks() if x in r]
                 ctx.ob("R-C09.1", wp, "arm-%s-syncs" % mode, not rets and bool(accept),
-                       "PersistMode::%s arm %s" % (mode, "always reaches File::%s" % ("sync_all" if mode == "SyncAll" else "sync_data/sync_all") if not rets else "can return WITHOUT syncing the file to the device"), wp.loc(tg))
+                       "PersistMode::%s arm %s" % (mode, "always reaches File::%s" % ("sync_all" if mode == "SyncAll" else "sync_data/sync_all") if not rets else "can return WITHOUT syncing the file to the device"), mf.loc(tg))
             # sync arms only entered through the switch (no sync before the flush)
             pruned = A.prune_edges(wp, assume_field={"is_buffer_dirty": True})
             fl = [b for b, t in wp.calls() if A.cname(t).endswith("as std::io::Write>::flush")]
-            ok = bool(fl) and all(A.dominates(wp, fl[0], s, pruned) for s in sa + sd)
+            syncs_in_wp = (sa + sd) if mf is wp else [via]
+            ok = bool(fl) and all(A.dominates(wp, fl[0], s, pruned) for s in syncs_in_wp)
+            if mf is not wp:
+                # the helper is reached on every success path of persist, and is not entered from anywhere else before a flush
+                ok = ok and not [x for x in wp.return_blocks() if x in A.reach(wp, [0], avoid=[via] + list(A.error_starts(wp)))]
+                callers = [f for f, b in ctx.cg.callers(mf.id)]
+                ok = ok and set(callers) <= {wp.id}
             ctx.ob("R-C09.1", wp, "flush-before-sync", ok,
                    "with a dirty buffer BufWriter::flush dominates every sync call" if ok else "a sync call can run before the buffered bytes were flushed to the file (fsync of stale content)")
         # ---- R-C09.2 errors are returned
-        for b, t in wp.calls():
-            n = A.cname(t)
-            if n in (SYNC_ALL, SYNC_DATA) or n.endswith("as std::io::Write>::flush"):
-                rf = A.result_flow(wp, b)
-                ok = rf.returned and not rf.swallowed and not rf.panics
-                ctx.ob("R-C09.2", wp, "result-of-%s-returned" % n.rsplit("::", 1)[-1], ok,
-                       "result of %s %s" % (n, "flows to the caller" if ok else "is NOT propagated (chain %s)" % rf.chain), wp.loc(b))
-                ctx.count_sites()
+        for f2 in ([wp] if mf is wp else [wp, mf]):
+            for b, t in f2.calls():
+                n = A.cname(t)
+                if n in (SYNC_ALL, SYNC_DATA) or n.endswith("as std::io::Write>::flush") or (f2 is wp and mf is not wp and b == via):
+                    rf = A.result_flow(f2, b)
+                    ok = rf.returned and not rf.swallowed and not rf.panics
+                    if rf.err_blocks and not rf.returned:
+                        # explicit match: the Err arm must neither loop back to the call nor end in Ok
+                        region = A.reach(f2, rf.err_blocks)
+                        ok = b not in region and not rf.swallowed and not rf.panics
+                    ctx.ob("R-C09.2", wp, "result-of-%s-returned" % n.rsplit("::", 1)[-1], ok,
+                           "result of %s %s" % (n, "flows to the caller" if ok else "is NOT propagated (chain %s)" % rf.chain), f2.loc(b))
+                    ctx.count_sites()
     jp = ctx.fn(R.JOURNAL_PERSIST, "R-C09.2")
     if jp:
         for b in R.call_blocks(jp, (R.PERSIST,)):
@@ -124,6 +157,9 @@ def run(ctx):
             ok = all(p is not None and p[0] == "P1" and "durability" in p for p in ap)
             detail = "persist(mode := %s)" % A.tstr(term)
         ctx.ob("R-C09.3", bc, "batch-persists-with-own-durability", ok, detail)
+
+    # the level requested through WriteBatch::durability / transaction durability(..) is the one the commit persists with (shared with R-C02.2)
+    C02.durability_plumbing(ctx, "R-C09.3")
 
     # ---- R-C09.4 rotation / creation
     rot = ctx.fn(R.WRITER + "::rotate", "R-C09.4")
